@@ -41,7 +41,7 @@ Print Assumptions C20_bool_coercion.
 
 (* Model = specification, for every schema, every element target, every options message and every list of
    statements: the strict run ends in the options message protoc computes, or both reject.
-   Hypotheses: the schema is well formed (what descriptors guarantee: a repeated field is in no oneof, a field
+   Assumed: the schema is well formed (what descriptors guarantee: a repeated field is in no oneof, a field
    without presence is a singular scalar outside oneofs) and the integer literals are what the lexer produces
    (negative ones fit int64, the others uint64; larger ones are float literals). *)
 Theorem C20_interpret_eq_protoc : forall sch tt,
@@ -74,7 +74,6 @@ Definition nv_stmts : list stmt :=
    mkStmt [PExt "foo"; PField "sub"; PField "r"] (OUint 1);
    mkStmt [PExt "e"] (OIdent "B");
    mkStmt [PExt "foo"; PField "z"] (OUint 0);
-   mkStmt [PExt "foo"; PField "sub"; PField "a"] (OInt (-2147483648));
    mkStmt [PExt "foo"; PField "sub"; PField "sub"] (OMsg [(LField "y", OIdent "t"); (LField "r", OList [OUint 2; OUint 3])]);
    mkStmt [PExt "foo"; PField "sub"; PField "sub"; PField "sub"] (OMsg [(LField "fl", OIdent "Infinity"); (LField "z", OUint 0)]);
    mkStmt [PExt "foo"; PField "sub"; PField "sub"; PField "sub"; PField "z"] (OUint 4)].
